@@ -534,6 +534,9 @@ func plans() []plan {
 	for i := 0; i < nrand; i++ {
 		ps = append(ps, plan{mode: "random"})
 	}
+	for i := 0; i < mon.Pick(120, 4000); i++ {
+		ps = append(ps, plan{mode: "rearm"})
+	}
 	nrace := mon.Pick(600, 30000)
 	for i := 0; i < nrace; i++ {
 		ps = append(ps, plan{mode: "racing"})
@@ -587,7 +590,7 @@ func TestCheck(t *testing.T) {
 	rec = mon.Open("C06")
 	defer rec.Close()
 	rec.Note("rule", "a case is one history run against the real Processor in a synctest bubble: (directed) the loop parked at each hook point x hit 1-2 x each placed operation kind (pairs of kinds as well); (random) 4-24 seeded Enqueue/Dequeue/Sleep/Close operations in lock-step with seeded hook parking; (racing) 2-4 goroutines issuing operations at the same virtual instants. Non-trivial = at least one callback was observed or an item was removed before running; distinct = distinct operation list.")
-	rec.Note("require", []string{"park.loop.start", "park.loop.empty", "park.loop.peeked", "park.loop.armed", "park.loop.fired", "park.exec.popped", "callbacks", "callback.reentrant_enqueue", "callback.reentrant_dequeue", "enq.far_future_item", "placed.close", "placed.enq", "placed.deq", "racing.same_instant_ops", "gated.close_waited_for_callback", "placed.second_close", "twoloops.both_parked"})
+	rec.Note("require", []string{"park.loop.start", "park.loop.empty", "park.loop.peeked", "park.loop.armed", "park.loop.fired", "park.exec.popped", "callbacks", "callback.reentrant_enqueue", "callback.reentrant_dequeue", "enq.far_future_item", "placed.close", "placed.enq", "placed.deq", "racing.same_instant_ops", "gated.close_waited_for_callback", "placed.second_close", "twoloops.both_parked", "rearm.same_object_enqueued_again_from_its_callback", "rearm.same_object_put_back_with_a_new_time", "rearm.scenarios_ok.callback-rearms-itself", "rearm.scenarios_ok.owner-takes-out-moves-later-puts-back", "rearm.scenarios_ok.owner-takes-out-moves-earlier-puts-back", "rearm.scenarios_ok.owner-replaces-in-place-later"})
 	ps := plans()
 	rec.Planned(len(ps))
 	for idx, pl := range ps {
@@ -600,6 +603,9 @@ func TestCheck(t *testing.T) {
 			pl.ops, pl.gate = genRandom(rng)
 		case "racing":
 			runRacing(t, idx, rng)
+			continue
+		case "rearm":
+			runRearm(t, idx, rng)
 			continue
 		}
 		runSeq(t, idx, pl)
